@@ -30,13 +30,40 @@
 //	          closed) or by the driver after App.Close has returned (RelBy = 0).  App.Run must return afterwards.
 //	"self"    an ApplicationRunner calls App.Close() itself from inside its Run(); the driver never calls Close.
 //
-// The oracle is the same in every mode: every closer called exactly once, Close returns after all of them
-// returned, nothing hangs.
+//	"overlap" App.Run has returned; the driver issues Closes (2-3) calls of App.Close that OVERLAP: call k+1 is invoked
+//	          while call k is certainly still running - at least one closer is of kind G (its Close() blocks until the
+//	          driver opens the gate of that call), and the driver invokes call k+1 only when every closer has been entered k
+//	          times (or call k has returned, which on such a case is already the violation).  When all calls have been
+//	          invoked the driver opens the gates call by call in the order RelOrder (any permutation: a later call may
+//	          return before an earlier one) and waits for that call to return.  Attribution: the j-th entry into a closer's
+//	          Close() belongs to call j (every event carries that number, C).  Kinds per entry j: F returns at once; A blocks
+//	          until every closer has been entered j times; W blocks until it sees that call j has already returned (the
+//	          violation) or a short deadline; G blocks until the gate of call j is opened.
+//
+// how the closers reach the App (Isolate cases, mode "" only; each in a child process, because the library's global
+// settings are process-wide and cannot be taken back):
+//
+//	ViaGlobal[i]   closer i is handed over through the GLOBAL settings - app.Settings(app.SetComponents(...)), spread
+//	               over SettingsCalls calls of app.Settings - instead of the run option app.SetComponents
+//	OwnRegistry    the run options begin with app.SetRegistry(support.NewRegistry()): the App works on a registry of the
+//	               caller's (the globally supplied closers have to land in it too)
+//	Pack           how the run options are passed: 0 one by one; 1 all of them as ONE app.Options(...) value; 2 the settings
+//	               (log level, configuration loaders) as one app.Options(...) value, the others one by one
+//	Boot           a second, "bootstrap" App with closers of its own is run by one of the run options of this App's Run
+//	               (position BootAt among them), i.e. an App.Run that begins while another App.Run is applying its
+//	               options; both Apps are closed afterwards, each must reach exactly its own closers (sub-result Boot)
+//
+// The oracle is the same in every mode: every closer called exactly once (by every call of Close), Close returns after
+// all of its invocations returned, nothing hangs.
 package main
 
 import (
+	"bytes"
+	"encoding/json"
 	"errors"
 	"fmt"
+	"os"
+	"os/exec"
 	"runtime"
 	"strconv"
 	"strings"
@@ -45,6 +72,7 @@ import (
 	"time"
 
 	"github.com/go-kid/ioc/app"
+	"github.com/go-kid/ioc/container/support"
 	"github.com/go-kid/ioc/syslog"
 	"verifharness/hx"
 )
@@ -63,12 +91,24 @@ type Case struct {
 	Mode       string `json:"mode"`
 	RunnerSlot int    `json:"runner_slot"`
 	RelBy      int    `json:"rel_by"`
+	// Mode "overlap": number of overlapping Close calls; the order in which their gates are opened (a permutation of 1..Closes)
+	Closes   int   `json:"closes"`
+	RelOrder []int `json:"rel_order"`
+	// Isolate cases (see above)
+	Isolate       bool   `json:"isolate"`
+	ViaGlobal     []bool `json:"via_global"`
+	SettingsCalls int    `json:"settings_calls"`
+	OwnRegistry   bool   `json:"own_registry"`
+	Pack          int    `json:"pack"`
+	Boot          *Case  `json:"boot"`
+	BootAt        int    `json:"boot_at"`
 }
 
 type Event struct {
-	K   string `json:"k"` // call | ret | close
+	K   string `json:"k"` // call | ret | close | inv (mode "overlap": the driver invokes a call of App.Close)
 	I   int    `json:"i"`
 	Err bool   `json:"err"`
+	C   int    `json:"c,omitempty"` // mode "overlap": the call of App.Close the event is attributed to (1-based)
 }
 
 type Out struct {
@@ -77,6 +117,7 @@ type Out struct {
 	Events     []Event `json:"events"`
 	Outcome    string  `json:"outcome"` // ok | hang | stalled | panic | runerr | skipped
 	Detail     string  `json:"detail"`
+	Boot       *Out    `json:"boot,omitempty"` // the bootstrap App of the case
 }
 
 const (
@@ -105,7 +146,18 @@ type recorder struct {
 	registered int32 // len(App.CloserComponents) as the runner saw it (mode "self")
 	runnerLost atomic.Bool
 	closePanic string
+
+	// mode "overlap" (index 0 unused)
+	K        int
+	ord      []int32         // per closer id: how often its Close() has been entered
+	reached  []chan struct{} // reached[k] is closed when the closers have been entered k*n times in total
+	closedK  []chan struct{} // closedK[k] is closed when call k of App.Close has returned
+	gate     []chan struct{} // gate[k] is closed by the driver: the G closers of call k may return
+	gateOnce []sync.Once
+	gateLost atomic.Bool
 }
+
+func (r *recorder) openGate(k int) { r.gateOnce[k].Do(func() { close(r.gate[k]) }) }
 
 func (r *recorder) releaseRunner() { r.relOnce.Do(func() { close(r.release) }) }
 
@@ -146,6 +198,9 @@ func (r *recorder) add(e Event) {
 		r.calls++
 		if r.calls == r.n {
 			close(r.allCalled)
+		}
+		if r.mode == "overlap" && r.n > 0 && r.calls%r.n == 0 && r.calls/r.n <= r.K {
+			close(r.reached[r.calls/r.n])
 		}
 	}
 	r.mu.Unlock()
@@ -207,7 +262,45 @@ type outer struct {
 func (o *outer) Naming() string { return fmt.Sprintf("closer%d", o.self.id) }
 func (o *outer) Close() error   { return o.self.run() }
 
+// runOverlap: one entry into the closer's Close() in mode "overlap"; j = the how-manieth entry it is = the call it belongs to
+func (c *core) runOverlap() error {
+	r := c.rec
+	j := int(atomic.AddInt32(&r.ord[c.id], 1))
+	r.add(Event{K: "call", I: c.id, C: j})
+	if j <= r.K { // a surplus entry (more entries than calls of Close) returns at once
+		switch c.kind {
+		case "A":
+			select {
+			case <-r.reached[j]:
+			case <-r.closedK[j]:
+			case <-time.After(stallTimeout):
+				r.stalled.Store(true)
+			}
+		case "W":
+			select {
+			case <-r.closedK[j]:
+			case <-time.After(c.wdl):
+			}
+		case "G":
+			select {
+			case <-r.gate[j]:
+			case <-time.After(2*hangTimeout + stallTimeout):
+				r.gateLost.Store(true)
+			}
+		}
+	}
+	r.add(Event{K: "ret", I: c.id, Err: c.fail, C: j})
+	atomic.AddInt32(&r.rets, 1)
+	if c.fail {
+		return errors.New("closer failed")
+	}
+	return nil
+}
+
 func (c *core) run() error {
+	if c.rec.mode == "overlap" {
+		return c.runOverlap()
+	}
 	c.rec.add(Event{K: "call", I: c.id})
 	if c.rec.mode == "during" && c.rec.relBy == c.id {
 		c.rec.releaseRunner()
@@ -232,6 +325,147 @@ func (c *core) run() error {
 		return errors.New("closer failed")
 	}
 	return nil
+}
+
+// bcloser: a closer of the bootstrap App (ordinary shape, a name space of its own).
+type bcloser struct{ core }
+
+func (c *bcloser) Naming() string { return fmt.Sprintf("bootcloser%d", c.id) }
+func (c *bcloser) Close() error   { return c.core.run() }
+
+// bootRun is the bootstrap App of a case: built before the main App runs, run BY a run option of the main App.
+type bootRun struct {
+	c      Case
+	rec    *recorder
+	app    *app.App
+	ran    bool
+	runErr error
+	panic_ string
+}
+
+func newBoot(c Case) *bootRun {
+	rec := &recorder{n: c.N, allCalled: make(chan struct{}), closed: make(chan struct{}),
+		release: make(chan struct{}), started: make(chan struct{})}
+	if c.N == 0 {
+		close(rec.allCalled)
+	}
+	return &bootRun{c: c, rec: rec, app: app.NewApp()}
+}
+
+// option: the run option of the main App that runs the bootstrap App
+func (b *bootRun) option() app.SettingOption {
+	return func(*app.App) {
+		comps := make([]any, b.c.N)
+		for i := 0; i < b.c.N; i++ {
+			comps[i] = &bcloser{core{id: i + 1, kind: b.c.Kinds[i], fail: b.c.Fails[i],
+				wdl: time.Duration(b.c.WdlMs) * time.Millisecond, rec: b.rec}}
+		}
+		b.ran = true
+		b.panic_ = hx.Guard(func() {
+			b.runErr = b.app.Run(app.SetConfigLoader(), app.SetComponents(comps...))
+		})
+	}
+}
+
+// finish closes the bootstrap App (after the main App has been closed) and reports like runCase does
+func (b *bootRun) finish() *Out {
+	out := &Out{ID: b.c.ID, Outcome: "ok"}
+	switch {
+	case !b.ran:
+		out.Outcome, out.Detail = "runerr", "the run option that runs the bootstrap App was never applied"
+		return out
+	case b.panic_ != "":
+		out.Outcome, out.Detail = "panic", "Run: "+b.panic_
+		return out
+	case b.runErr != nil:
+		out.Outcome, out.Detail = "runerr", b.runErr.Error()
+		return out
+	}
+	out.Registered = len(b.app.CloserComponents)
+	done := make(chan string, 1)
+	go func() {
+		p := hx.Guard(func() { b.app.Close() })
+		b.rec.add(Event{K: "close"})
+		close(b.rec.closed)
+		done <- p
+	}()
+	select {
+	case p := <-done:
+		if p != "" {
+			out.Outcome, out.Detail = "panic", "Close: "+p
+		}
+	case <-time.After(hangTimeout + time.Duration(b.c.WdlMs)*time.Millisecond):
+		out.Outcome, out.Detail = "hang", "App.Close did not return"
+	}
+	b.rec.settle()
+	if b.rec.stalled.Load() && out.Outcome == "ok" {
+		out.Outcome = "stalled"
+	}
+	b.rec.mu.Lock()
+	out.Events = append([]Event{}, b.rec.events...)
+	b.rec.mu.Unlock()
+	return out
+}
+
+// settle lets every closer that was called finish (they are released by rec.closed); bounded
+func (r *recorder) settle() {
+	deadline := time.Now().Add(2 * time.Second)
+	for time.Now().Before(deadline) {
+		r.mu.Lock()
+		calls := r.calls
+		r.mu.Unlock()
+		if int(atomic.LoadInt32(&r.rets)) >= calls {
+			break
+		}
+		time.Sleep(time.Millisecond)
+	}
+}
+
+// runOptions: the options of the main App's Run and what has to go into the global settings first
+func runOptions(c Case, comps []any, boot *bootRun) (opts []app.SettingOption) {
+	var local, global []any
+	for i, comp := range comps {
+		if i < len(c.ViaGlobal) && c.ViaGlobal[i] {
+			global = append(global, comp)
+		} else {
+			local = append(local, comp)
+		}
+	}
+	// the global settings, spread over SettingsCalls calls of app.Settings (a call without components sets an empty
+	// group of options: it only makes the list of global options longer)
+	for k := 0; k < c.SettingsCalls; k++ {
+		lo, hi := k*len(global)/c.SettingsCalls, (k+1)*len(global)/c.SettingsCalls
+		if hi > lo {
+			app.Settings(app.SetComponents(global[lo:hi]...))
+		} else {
+			app.Settings(app.Options())
+		}
+	}
+	if c.SettingsCalls == 0 {
+		local = append(local, global...)
+	}
+	if c.OwnRegistry {
+		opts = append(opts, app.SetRegistry(support.NewRegistry()))
+	}
+	if c.Pack == 2 {
+		opts = append(opts, app.Options(app.LogLevel(syslog.LvFatal), app.SetConfigLoader()), app.SetComponents(local...))
+	} else {
+		opts = append(opts, app.LogLevel(syslog.LvFatal), app.SetConfigLoader(), app.SetComponents(local...))
+	}
+	if boot != nil {
+		at := c.BootAt
+		if c.OwnRegistry && at < 1 {
+			at = 1 // the registry option stays first
+		}
+		if at > len(opts) {
+			at = len(opts)
+		}
+		opts = append(opts[:at], append([]app.SettingOption{boot.option()}, opts[at:]...)...)
+	}
+	if c.Pack == 1 {
+		opts = []app.SettingOption{app.Options(opts...)}
+	}
+	return
 }
 
 // build makes the components of a case in slot order (= registration order).
@@ -307,6 +541,17 @@ func build(c Case, rec *recorder) (comps []any, bad string) {
 	}
 	switch c.Mode {
 	case "":
+	case "overlap":
+		if c.Closes < 1 || c.Closes > 8 || len(c.RelOrder) != c.Closes {
+			return nil, "overlap: closes / rel_order"
+		}
+		seen := map[int]bool{}
+		for _, k := range c.RelOrder {
+			if k < 1 || k > c.Closes || seen[k] {
+				return nil, "overlap: rel_order is not a permutation"
+			}
+			seen[k] = true
+		}
 	case "during", "self":
 		if c.RunnerSlot >= 0 {
 			if c.RunnerSlot >= c.N || shape(c.RunnerSlot) != "P" {
@@ -335,6 +580,19 @@ func runCase(c Case) (out Out) {
 	if c.N == 0 {
 		close(rec.allCalled)
 	}
+	if c.Mode == "overlap" {
+		rec.K = c.Closes
+		rec.ord = make([]int32, c.N+1)
+		rec.gateOnce = make([]sync.Once, c.Closes+1)
+		for k := 0; k <= c.Closes; k++ {
+			rec.reached = append(rec.reached, make(chan struct{}))
+			rec.closedK = append(rec.closedK, make(chan struct{}))
+			rec.gate = append(rec.gate, make(chan struct{}))
+			if c.N == 0 {
+				close(rec.reached[k])
+			}
+		}
+	}
 	comps, bad := build(c, rec)
 	if bad != "" {
 		out.Outcome, out.Detail = "runerr", "bad case: "+bad
@@ -343,11 +601,21 @@ func runCase(c Case) (out Out) {
 	defer zreset()
 	a := app.NewApp()
 	rec.app = a
+	var boot *bootRun
+	if c.Boot != nil {
+		boot = newBoot(*c.Boot)
+		defer func() {
+			if out.Outcome != "runerr" || boot.ran {
+				out.Boot = boot.finish()
+			}
+		}()
+	}
+	opts := runOptions(c, comps, boot)
 	var runErr error
 	runDone := make(chan string, 1)
 	go func() {
 		runDone <- hx.Guard(func() {
-			runErr = a.Run(app.LogLevel(syslog.LvFatal), app.SetConfigLoader(), app.SetComponents(comps...))
+			runErr = a.Run(opts...)
 		})
 	}()
 	runEnded := func(p string) bool { // true: the case is over
@@ -363,7 +631,7 @@ func runCase(c Case) (out Out) {
 	}
 	wdl := time.Duration(c.WdlMs) * time.Millisecond
 	switch c.Mode {
-	case "":
+	case "", "overlap":
 		if runEnded(<-runDone) {
 			return
 		}
@@ -403,7 +671,46 @@ func runCase(c Case) (out Out) {
 		}
 		out.Registered = int(atomic.LoadInt32(&rec.registered))
 	}
-	if c.Mode != "self" {
+	if c.Mode == "overlap" {
+		dones := make([]chan string, c.Closes+1)
+		for k := 1; k <= c.Closes && out.Outcome == "ok"; k++ {
+			dones[k] = make(chan string, 1)
+			rec.add(Event{K: "inv", C: k})
+			go func(k int) {
+				p := hx.Guard(func() { a.Close() })
+				rec.add(Event{K: "close", C: k})
+				close(rec.closedK[k])
+				dones[k] <- p
+			}(k)
+			// the next call is invoked only when every closer has been entered k times (while a G closer of this call is
+			// still blocked) - or when this call has already returned
+			select {
+			case <-rec.reached[k]:
+			case <-rec.closedK[k]:
+			case <-time.After(hangTimeout):
+				out.Outcome, out.Detail = "hang", fmt.Sprintf("call %d of App.Close: the closers were not all entered", k)
+			}
+		}
+		for _, k := range c.RelOrder {
+			rec.openGate(k)
+			if dones[k] == nil {
+				continue
+			}
+			select {
+			case p := <-dones[k]:
+				if p != "" && out.Outcome == "ok" {
+					out.Outcome, out.Detail = "panic", "Close: "+p
+				}
+			case <-time.After(hangTimeout + wdl):
+				if out.Outcome == "ok" {
+					out.Outcome, out.Detail = "hang", fmt.Sprintf("call %d of App.Close did not return", k)
+				}
+			}
+		}
+		if rec.gateLost.Load() && out.Outcome == "ok" {
+			out.Outcome, out.Detail = "hang", "a gate was never opened"
+		}
+	} else if c.Mode != "self" {
 		done := make(chan string, 1)
 		go func() {
 			p := hx.Guard(func() { a.Close() })
@@ -442,17 +749,7 @@ func runCase(c Case) (out Out) {
 			out.Outcome, out.Detail = "hang", "the runner was never released"
 		}
 	}
-	// let every closer that was called finish (they are released by rec.closed); bounded
-	deadline := time.Now().Add(2 * time.Second)
-	for time.Now().Before(deadline) {
-		rec.mu.Lock()
-		calls := rec.calls
-		rec.mu.Unlock()
-		if int(atomic.LoadInt32(&rec.rets)) >= calls {
-			break
-		}
-		time.Sleep(time.Millisecond)
-	}
+	rec.settle()
 	if rec.stalled.Load() && out.Outcome == "ok" {
 		out.Outcome = "stalled"
 	}
@@ -462,7 +759,55 @@ func runCase(c Case) (out Out) {
 	return out
 }
 
+// runIsolated runs one case in a child process (the library's global settings are process-wide)
+func runIsolated(self string, c Case) (out Out) {
+	out = Out{ID: c.ID}
+	data, _ := json.Marshal(c)
+	cmd := exec.Command(self, "-child")
+	cmd.Stdin = bytes.NewReader(data)
+	var buf bytes.Buffer
+	cmd.Stdout, cmd.Stderr = &buf, &buf
+	if err := cmd.Start(); err != nil {
+		out.Outcome, out.Detail = "panic", err.Error()
+		return
+	}
+	done := make(chan error, 1)
+	go func() { done <- cmd.Wait() }()
+	select {
+	case <-done:
+	case <-time.After(4*hangTimeout + 2*time.Duration(c.WdlMs)*time.Millisecond):
+		cmd.Process.Kill()
+		<-done
+		out.Outcome, out.Detail = "hang", "the child process did not finish"
+		return
+	}
+	s := buf.String()
+	if i := strings.LastIndex(s, "@@JSON "); i >= 0 {
+		line := s[i+7:]
+		if j := strings.IndexByte(line, '\n'); j >= 0 {
+			line = line[:j]
+		}
+		var child Out
+		if json.Unmarshal([]byte(line), &child) == nil {
+			return child
+		}
+	}
+	if len(s) > 1500 {
+		s = s[len(s)-1500:]
+	}
+	out.Outcome, out.Detail = "panic", "child process: "+s
+	return
+}
+
 func main() {
+	if len(os.Args) > 1 && os.Args[1] == "-child" {
+		os.Args = os.Args[:1]
+		var c Case
+		hx.ReadInput(&c)
+		hx.Quiet()
+		hx.WriteOutput(runCase(c))
+		return
+	}
 	var in struct {
 		Cases   []Case `json:"cases"`
 		MaxBad  int    `json:"max_bad"`
@@ -475,7 +820,26 @@ func main() {
 	}
 	outs := make([]Out, 0, len(in.Cases))
 	bad := 0
-	for _, c := range in.Cases {
+	self, _ := os.Executable()
+	// the isolated cases run in child processes, four at a time, while the others run here one after the other
+	iso := map[int]chan Out{}
+	sem := make(chan struct{}, 4)
+	for i, c := range in.Cases {
+		if c.Isolate {
+			ch := make(chan Out, 1)
+			iso[i] = ch
+			go func(c Case) {
+				sem <- struct{}{}
+				defer func() { <-sem }()
+				ch <- runIsolated(self, c)
+			}(c)
+		}
+	}
+	for i, c := range in.Cases {
+		if ch, ok := iso[i]; ok {
+			outs = append(outs, <-ch)
+			continue
+		}
 		if bad >= in.MaxBad {
 			outs = append(outs, Out{ID: c.ID, Outcome: "skipped"})
 			continue
